@@ -278,7 +278,7 @@ PROPS["C09"] = dict(
     level="exploration",
     technique="stateful property-based testing: rapidcheck-generated API call histories in a 25-operation language, interpreted against one or two decoders created inside a forked child under ASan/UBSan with asserts on; a liveness-tracking interpreter, documented-return-value oracle, fixed follow-up utterance, and an explicit LeakSanitizer pass after the last reference is released",
     level_text="Histories of 3-40 calls over decoder_set_jsgf_string / set_fsg / set_align_text (valid and must-refuse arguments), decoder_add_word, start_utt / process_int16 / process_float32 (0 to 70,000 samples, no_search and full_utt flags) / end_utt, hyp, prob, seg iterators (partly walked, abandoned), N-best with segmentations, lattice (walk, bestpath, posterior, retain past the utterance), alignment iterators over three levels, result JSON, timing and cmn accessors, lookup, reinit / reinit_feat, retain/free pairs, set_logfile(NULL), freeing a decoder at any point including mid-utterance; standalone configuration objects (config_set_str/int/float/bool with matching and mismatching types, unknown and empty keys, NULL values, typed getters, unset, parse_json of valid and invalid text, serialize_json which must read back, retain/free); decoder_reinit with a new configuration object (valid English or French model, missing model directory, missing or unreadable dictionary, invalid loglevel, grammars named in the configuration including one with an unknown word) after which a failed decoder may only be reinitialised or freed; alignments retained across utterances and reinitialisation; lattice forward and reverse edge traversal, posterior pruning with beams down to 0 followed by bestpath; decoder_set_jsgf_file on a valid file, a missing file, a non-JSGF file and a directory. 55% of histories follow the protocol; 45% may call anything in any state. Each call's return value is compared with the documented one where the documentation fixes it; after the history a fixed utterance must still align correctly; after every object is released __lsan_do_leak_check must find nothing.",
-    level_note="Trusted: ASan/UBSan/LeakSanitizer, the fork runner's death classification, and the interpreter's own liveness bookkeeping (iterators are closed before calls that replace the result they walk). Object pointers are always valid (the property quantifies over valid pointers).",
+    level_note="Trusted: ASan/UBSan/LeakSanitizer, the fork runner's death classification, and the interpreter's own liveness bookkeeping (iterators are closed before calls that replace the result they walk). Object pointers are always valid (the property quantifies over valid pointers). 'Every call returns': a history still running at ten times the 60 s per-case limit is a violation (none seen).",
     quick=dict(cases=480, maxlen=400, budget=120),
     thorough=dict(cases=16000, maxlen=600, budget=1800),
     rule=("choices decode to (number of calls, protocol-following or free-for-all, then per call: decoder index, operation, arguments). Non-trivial = at least 6 calls, "
@@ -291,7 +291,7 @@ PROPS["C10"] = dict(
     level="exploration",
     technique="structure-aware mutation testing driven by rapidcheck (valid generated JSGF / FSG / dictionary / configuration / text inputs + 0-3 typed mutations, or raw bytes), each case in a forked child under ASan/UBSan with asserts on; returned objects are used and freed; thorough tier adds coverage-guided libFuzzer campaigns on the same entry points",
     level_text="Valid generated inputs for the five text front doors (JSGF text; FSG text through a memory buffer of exactly its length; dictionary + filler dictionary buffers; JSON / key-value configuration; alignment text, word+pronunciation, lookup and cmn strings on a live decoder) are mutated with hostile numbers (0, -1, 1e9, 1e-320, nan, inf, 2^31, 2^63 ...), tokens of up to 100,000 bytes, nesting up to depth 20,000, dropped terminators, NUL / 0x80-0xFF / control bytes, duplicated lines, swapped fields, truncation and byte noise. The call must return (no sanitizer report, assertion, exit or timeout); accepted objects are iterated, written, transformed, installed in a decoder and decoded with, serialised and re-parsed, and freed.",
-    level_note="Trusted: ASan/UBSan, the fork runner's death classification. Semantic correctness of valid inputs is judged by C05/C13/C16; this check is about safety. Per-case timeouts (20 s) are counted as inconclusive and sampled in the evidence.",
+    level_note="Trusted: ASan/UBSan, the fork runner's death classification. Semantic correctness of valid inputs is judged by C05/C13/C16; this check is about safety. 'Never loops forever': a case that exceeds the 20 s limit is interrupted (the sanitizer runtime prints where it was), re-run alone with ten times the limit, and reported as a violation timeout:<chain of library functions> only if it is still running then; slower-but-finishing cases stay inconclusive and are counted per library function in the evidence.",
     quick=dict(cases=900, maxlen=700, budget=100),
     thorough=dict(cases=30000, maxlen=700, budget=1500),
     rule=("choices decode to (target in {jsgf, fsg, dict, config, text}, a valid generated input, 0-3 typed mutations or raw bytes). Non-trivial = the input was accepted "
